@@ -288,12 +288,15 @@ func vfyOp(r *core.Rand) string {
 	if r.Chance(1, 5) {
 		now = (nbv + nav) * 500
 	}
+	if r.Chance(2, 5) { // well inside a wide window: the name and the chain decide
+		nb, na, now = "-3600", "3600", r.Intn(2000)-1000
+	}
 	host := genVHost(r, names, ips)
 	if r.Chance(1, 8) {
 		host = ""
 	}
 	signer := "ca"
-	if r.Chance(1, 6) {
+	if r.Chance(1, 4) {
 		signer = "other"
 	}
 	return fmt.Sprintf("vfy %s %s %s %s %s %s %d", hexList(names), hexList(ips), signer, nb, na, core.HexS(host), now)
